@@ -10,6 +10,8 @@ CONSTANTS
   MaxW = 2
   LookupMode = "fresh"
   MaxConns = 1
+  LookupLocks = "single"
+  MaxWrites = 0
   Cases <- MCCases
 VIEW view
 INVARIANTS NoBytes NoEarlyClose KeepsReading MatchSound ConsumeExact FoundWhenComplete NeverDropsMatching MarkedUsed TableSound RegistryFree DeadlineUnpredictable
